@@ -314,10 +314,10 @@ Init ==
 
 Alphabet == SliceLeaves \cup SliceConts
 Next ==
-    \/ pc = "build" /\ Slice # "given" /\ \E n \in Alphabet, dd \in 1 .. MaxDepth : Grow(n, dd)
-    \/ pc = "build" /\ \E c \in SliceConfs : EnterModule(c)
-    \/ pc = "walk" /\ (Leave \/ PlaceDecorator \/ EnterClass \/ EnterFunc
-                        \/ VisitAnnAssign \/ VisitImport \/ VisitOther \/ Finish)
+    \/ \E n \in Alphabet, dd \in 1 .. MaxDepth : Grow(n, dd)
+    \/ \E c \in SliceConfs : EnterModule(c)
+    \/ Leave \/ PlaceDecorator \/ EnterClass \/ EnterFunc
+    \/ VisitAnnAssign \/ VisitImport \/ VisitOther \/ Finish
 
 Spec == Init /\ [][Next]_vars
 
